@@ -1,5 +1,31 @@
-import Ecal.Drivers.Util
+import Ecal.Drivers.EvalCommon
+/-!
+Driver of C04. Payload: `evPayload` of a marker program (see go/cmd/harness/evalcommon.go, c04.go).
+Result: the canonical outcome of `Ecal.Ev.eval` on the tree of the payload with line and column of an
+error removed — ordered marker trace, final value, error TYPE. `nt=1`: the model's trace has at least
+two entries.
+-/
 namespace Ecal.Drv.C04
-/-- model driver of property C04 (stub: not implemented yet) -/
-def run (_args : List String) : IO Unit := Ecal.Drv.lineLoop fun _ => "unimplemented"
+open Ecal.Drv Ecal.Drv.EvalCommon
+
+/-- drop line and column from `ERR <type> <line> <col>` -/
+def stripPos (out : String) : String :=
+  let f := out.splitOn " "
+  let i := if f.head? == some "V" then 1 else 0
+  if f.length ≥ i + 4 && f[i]? == some "ERR" then " ".intercalate (f.take (i + 2) ++ f.drop (i + 4))
+  else out
+
+def runCase (payload : String) : String :=
+  match decodePayload payload with
+  | none => "bad-payload"
+  | some prog =>
+    let r := runProgram prog
+    let t := outcomeText r
+    let t := if t.contains '?' then "UNSUP log shows a value the model does not know" else t
+    let nt : Bool := match r with
+      | .done _ st => decide (st.log.size ≥ 2)
+      | _ => false
+    stripPos t ++ (if nt then "\tnt=1" else "")
+
+def run (_args : List String) : IO Unit := lineLoop runCase
 end Ecal.Drv.C04
